@@ -21,6 +21,10 @@ ASSUMPTIONS = [
 PROFILES = [
     S.profile(p_resources=0, task_constraints=(0, 0), optional_rules=(0, 0), resource_constraints=(0, 0), p_release=45, p_due=45),
     S.profile(p_resources=50, task_constraints=(0, 2), optional_rules=(0, 1), resource_constraints=(0, 1), buffers=(0, 1), p_release=40, p_due=40),
+    # task constraints used as operands of logical operators (declared, but not enforced on their own), optional constraints,
+    # precedences over task groups, a declared horizon
+    S.profile(min_tasks=2, p_no_horizon=0, p_resources=30, task_constraints=(0, 2), optional_rules=(0, 0), resource_constraints=(0, 0), fol=(1, 2), fol_depth=2, optional_constraints=25,
+              p_group_precedence=20, p_optional=15, p_release=20, p_due=20, p_shared_operand=20),
 ]
 
 
